@@ -3,6 +3,7 @@ package rules
 import (
 	"fmt"
 	"go/constant"
+	"go/token"
 	"math"
 	"strings"
 
@@ -17,7 +18,7 @@ func init() {
 		ID:    "C10",
 		Title: "Aggregates, group-by and top-N equal a reference; partials compose",
 		Decides: "the aggregation function tables agree: the functions constructible as Map = as Reduce = the vectorized mapping = the proto enum (minus UNSPECIFIED); partial→wire and wire→partial special-case the same function set (MEAN carries a count) and the vectorized partial writer puts Partial.Count into the count column and Partial.Value into the value column for every numeric kind; " +
-			"the identity elements of MIN/MAX are the extreme values of their domain; the per-node query template of the distributed measure plan pushes down group-by/aggregation but never top-N; replica de-duplication precedes the reduce; the top-N heaps order by value in the direction their role requires.",
+			"the identity elements of MIN/MAX are the extreme values of their domain; the per-node query template of the distributed measure plan pushes down group-by/aggregation but never top-N; replica de-duplication precedes the reduce; the top-N heaps order by value in the direction their role requires.; in the vectorized distributed plan a request-derived node Limit does not survive to the exit when the node request aggregates (partials are never limited on the nodes)",
 		NotDecided: "any arithmetic (sums, means, overflow, float association), heap-based top-N contents, equality with a reference implementation.",
 		Technique:  "case-set agreement on the typed syntax tree against the generated proto enum; SSA def-use of wire columns; constant evaluation of identity elements; comparator truth tables",
 		Run:        runC10,
@@ -150,6 +151,69 @@ func runC10(c *core.Ctx) {
 	r.cmpLex(rule, "pkg/query/logical/measure", "topSortedList.Less", ij, "by value, ascending iff reverted", kspec{Match: "value", AscFlag: "reverted"})
 	r.cmpLex(rule, "pkg/query/logical/measure", "topHeap.Less", ij, "by value, descending iff reverted (root = element to evict)", kspec{Match: "value", DescFlag: "reverted"})
 	r.Floor(rule, 2)
+
+	// aggregation partials are never limited on the data nodes: whenever the per-node request carries an Agg, the
+	// Limit it is sent with is the unbounded constant — limit / offset apply after the liaison-side reduce
+	{
+		rule := "c10.agg-partials-unlimited"
+		n := 0
+		// (vectorized plan only: its data nodes apply Limit after the Map-phase group-by; the row plan's data nodes
+		// ignore the request limit under aggregation — pushedLimit = MaxInt — so its liaison may send any value)
+		for _, spec := range []struct{ pkg, fn string }{{"pkg/query/vectorized/measure/plan", "AnalyzeDistributed"}} {
+			f := r.fn(rule, spec.pkg, spec.fn)
+			if f == nil {
+				continue
+			}
+			isLimitStore := func(in ssa.Instruction) bool {
+				st, ok := in.(*ssa.Store)
+				return ok && strings.HasSuffix(ssax.FieldQName(st.Addr), "measure/v1.QueryRequest.Limit")
+			}
+			isUnbounded := func(in ssa.Instruction) bool {
+				st, ok := in.(*ssa.Store)
+				if !ok || !isLimitStore(in) {
+					return false
+				}
+				k, ok := st.Val.(*ssa.Const)
+				return ok && k.Value != nil && (k.Value.ExactString() == "4294967295" || k.Value.ExactString() == "2147483647" || k.Value.ExactString() == "9223372036854775807")
+			}
+			// world: the node request aggregates (GetAgg() != nil / pushDownAgg)
+			atom := func(v ssa.Value) (bool, bool) {
+				bo, ok := v.(*ssa.BinOp)
+				if ok && (bo.Op == token.NEQ || bo.Op == token.EQL) {
+					for _, side := range []ssa.Value{bo.X, bo.Y} {
+						if c, isC := side.(*ssa.Call); isC && strings.HasSuffix(ssax.CalleeName(c.Common()), ").GetAgg") {
+							return bo.Op == token.NEQ, true
+						}
+					}
+				}
+				if fv := ssax.FieldOf(v); fv != nil && fv.Name() == "pushDownAgg" {
+					return true, true
+				}
+				if u, ok := v.(*ssa.UnOp); ok && u.Op == token.MUL {
+					if fv := ssax.FieldOf(u.X); fv != nil && fv.Name() == "pushDownAgg" {
+						return true, true
+					}
+				}
+				return false, false
+			}
+			for _, st := range ssax.Find(f, isLimitStore) {
+				if isUnbounded(st) {
+					continue
+				}
+				if _, _, reachable := worldSearch(f, nil, func(in ssa.Instruction) bool { return in == st }, atom); !reachable {
+					continue // this store cannot execute when the node request aggregates
+				}
+				n++
+				construct := fmt.Sprintf("%s: bounded node Limit #%d does not survive when the node request aggregates", ssax.FuncName(f), n)
+				if tgt, path, found := worldSearchAvoid(f, st, ssax.SuccessExit(f), isUnbounded, atom); found {
+					r.Violate(rule, construct, r.pos(st), fmt.Sprintf("with an aggregation in the node request the limit stored at %s (derived from the request's limit/offset) is still in force at the exit %s (blocks %s): each node returns only its first groups and the reduced result misses the other nodes' contributions", r.pos(st), r.pos(tgt), blocksStr(path)))
+				} else {
+					r.Hold(rule, construct, r.pos(st), "overwritten by the unbounded constant on every path where the request aggregates")
+				}
+			}
+		}
+		r.Floor(rule, 1)
+	}
 }
 
 func flowsFromParamNamed(v ssa.Value, pname string, depth int) bool {
